@@ -260,6 +260,31 @@ func evRefreshFails() h.Event {
 	return h.Event{Label: "refresh-fails-once", Apply: func(hh *h.Hist) { hh.SlotFlags["refresh-fail"] = true }}
 }
 
+// evVanishFromStore: the Node object disappears from the API server right after the informer view
+// was taken (the scan still lists it; every call on it answers NotFound).
+func evVanishFromStore(node string) h.Event {
+	return h.Event{Label: "node-gone-from-api(" + node + ")", Apply: func(hh *h.Hist) {
+		hh.PostSync = append(hh.PostSync, func(hh *h.Hist) {
+			for i, n := range hh.W.Nodes {
+				if n.Name == node {
+					hh.W.Nodes = append(hh.W.Nodes[:i:i], hh.W.Nodes[i+1:]...)
+					return
+				}
+			}
+		})
+	}}
+}
+
+// evPodStartPending: a pod bound to the node whose containers have not started (phase Pending).
+func evPodStartPending(g h.GroupSpec, node string, cpu int64) h.Event {
+	return h.Event{Label: fmt.Sprintf("pod-bound-pending(%s,%dm)", node, cpu), Apply: func(hh *h.Hist) {
+		o := podOn(g, node, cpu)
+		o.Phase = v1.PodPending
+		p := hh.W.AddPod(o)
+		p.Status.Conditions = []v1.PodCondition{{Type: v1.PodScheduled, Status: v1.ConditionTrue}}
+	}}
+}
+
 func evRestart() h.Event {
 	return h.Event{Label: "restart", Apply: func(hh *h.Hist) { hh.Restart = true }}
 }
